@@ -50,44 +50,55 @@ def spanDigits : Bytes → Bytes × Bytes
   | c :: rest =>
     if isDigit c then let r := spanDigits rest; (c :: r.1, r.2) else ([], c :: rest)
 
+/-- optional leading `-` (`stateBeginValue` → `stateNeg`) -/
+def scanSign : Bytes → Bytes × Bytes
+  | 0x2D :: r => ([0x2D], r)
+  | s => ([], s)
+
+/-- `0` or a non-zero digit followed by digits (`state0` / `state1`) -/
+def scanInt : Bytes → Option (Bytes × Bytes)
+  | [] => none
+  | c :: r =>
+    if c = 0x30 then some ([c], r)
+    else if isDigit c then let d := spanDigits r; some (c :: d.1, d.2)
+    else none
+
+/-- optional `.` followed by at least one digit (`stateDot` / `stateDot0`) -/
+def scanFrac : Bytes → Option (Bytes × Bytes)
+  | 0x2E :: r2 =>
+    let d := spanDigits r2
+    if d.1.isEmpty then none else some (0x2E :: d.1, d.2)
+  | s => some ([], s)
+
+/-- optional `+` / `-` of an exponent (`stateE` → `stateESign`) -/
+def scanExpSign : Bytes → Bytes × Bytes
+  | 0x2B :: r => ([0x2B], r)
+  | 0x2D :: r => ([0x2D], r)
+  | s => ([], s)
+
+/-- optional exponent: `e`/`E`, optional sign, at least one digit (`stateE` / `stateESign` / `stateE0`) -/
+def scanExp : Bytes → Option (Bytes × Bytes)
+  | [] => some ([], [])
+  | e :: r3 =>
+    if e = 0x65 ∨ e = 0x45 then
+      let sg := scanExpSign r3
+      let d := spanDigits sg.2
+      if d.1.isEmpty then none else some (e :: (sg.1 ++ d.1), d.2)
+    else some ([], e :: r3)
+
 /-- scanner states `state1/0` … `stateE0`: the number literal at the head. `none` = `scanError`
 (or `io.ErrUnexpectedEOF` when the input ends inside the literal). -/
 def scanNumber (s : Bytes) : Option (Bytes × Bytes) :=
-  let (sign, s1) : Bytes × Bytes := match s with
-    | 0x2D :: r => ([0x2D], r)
-    | _ => ([], s)
-  match s1 with
-  | [] => none
-  | c :: r =>
-    let intPart : Option (Bytes × Bytes) :=
-      if c = 0x30 then some ([c], r)
-      else if isDigit c then let d := spanDigits r; some (c :: d.1, d.2)
-      else none
-    match intPart with
+  let sg := scanSign s
+  match scanInt sg.2 with
+  | none => none
+  | some (ip, a1) =>
+    match scanFrac a1 with
     | none => none
-    | some (ip, a1) =>
-      let frac : Option (Bytes × Bytes) := match a1 with
-        | 0x2E :: r2 =>
-          let d := spanDigits r2
-          if d.1.isEmpty then none else some (0x2E :: d.1, d.2)
-        | _ => some ([], a1)
-      match frac with
+    | some (fp, a2) =>
+      match scanExp a2 with
       | none => none
-      | some (fp, a2) =>
-        let exp : Option (Bytes × Bytes) := match a2 with
-          | e :: r3 =>
-            if e = 0x65 ∨ e = 0x45 then
-              let (sg, r4) : Bytes × Bytes := match r3 with
-                | 0x2B :: r => ([0x2B], r)
-                | 0x2D :: r => ([0x2D], r)
-                | _ => ([], r3)
-              let d := spanDigits r4
-              if d.1.isEmpty then none else some (e :: (sg ++ d.1), d.2)
-            else some ([], a2)
-          | [] => some ([], a2)
-        match exp with
-        | none => none
-        | some (ep, a3) => some (sign ++ ip ++ fp ++ ep, a3)
+      | some (ep, a3) => some (sg.1 ++ ip ++ fp ++ ep, a3)
 
 /-- strip an exact prefix -/
 def stripPrefix : Bytes → Bytes → Option Bytes
